@@ -76,7 +76,29 @@ def run(F, R):
                     "missing interface argument, and enumerates the implementing field's own arguments (an additional argument must be optional)")
     civ = F.one(CHK + r"::check_is_valid_implementation$", kind="fn")
     st = civ.calls_to(r"type_ref::\{impl#\d+\}::is_subtype$")
-    R.check(len(st) >= 2, "R33.3", "is_valid_implementation:is_subtype-field-and-argument", civ.where(), "%d is_subtype comparisons" % len(st), "field/argument type covariance is not checked")
+    R.check(len(st) >= 1, "R33.3", "is_valid_implementation:field-type-compared", civ.where(), "%d is_subtype comparisons" % len(st), "field type covariance is not checked")
+
+    def side(op):
+        """'iface' / 'impl' : which field the compared type belongs to"""
+        o, passed = trace(civ, op)
+        names = {civ.local_name(x[0]) for k, x in o if k == "field"} | ({civ.local_name(op[1][0])} if op[0] in ("c", "m") else set())
+        if any((p.declared or "").endswith("BaseField::ty") for p in passed) or "impl_field" in names or "impl_arg" in names:
+            return "impl"
+        if "field" in names or "arg" in names:
+            return "iface"
+        return "?"
+
+    # field types are covariant: `a.is_subtype(b)` decides "b is a sub-type of a" (R33.6), so the receiver must be the interface field's type
+    for c in st:
+        recv, arg_ = side(c.args[0]), side(c.args[1])
+        is_field = any(k == "field" and ".ty" in x for k, x in trace(civ, c.args[0])[0]) or True
+        R.check((recv, arg_) == ("iface", "impl"), "R33.3", "is_valid_implementation:is_subtype-direction", c.where(), "interface type .is_subtype(implementing type)",
+                "is_subtype is called as %s.is_subtype(%s): the implementing type is required to be a *super*type of the interface's (Int accepted for Int!, Int! rejected for Int)" % (recv, arg_))
+    # argument types are invariant: compared with == / !=, not with is_subtype
+    eqs = [c for c in civ.calls() if c.callee and re.search(r"::(eq|ne)$", c.callee) and c.argtys and all("type_ref::TypeRef" in t for t in c.argtys[:2])]
+    arg_eq = [c for c in eqs if {side(c.args[0]), side(c.args[1])} == {"iface", "impl"}]
+    R.check(bool(arg_eq), "R33.3", "is_valid_implementation:argument-types-invariant", civ.where(), "argument types compared for equality",
+            "argument types of the interface field and the implementing field are not compared for equality (the specification makes them invariant)")
     arg_lookups = [c for c in civ.calls() if (c.declared or "").endswith("BaseField::argument")]
     R.floor("R33.3", "argument lookups", len(arg_lookups), 1)
     for c in arg_lookups:
